@@ -178,6 +178,7 @@ def alphabet(root):
         ('assist', ('from mchain import A11 as C\nC.', (2, 2), f)),
         ('run', ()),                                                # attributes of the server object that are not requests
         ('__init__', (None,)),
+        ('assist', ('import json\njson.', (2, 5), f)),              # answered from the source or from the live module: depends on dyn_modules only
     ]
 
 
@@ -309,6 +310,7 @@ def run_sequence(root, seq, ch=None):
         exp = ref.expected(name, args)
         got = call(env, name, args)
         results.append((j, got, exp))
+    link.reference = ref
     return link, results
 
 
@@ -349,8 +351,11 @@ def unit_stack(arg):
 
 
 def state_of(link):
+    # the state of the search is the PAIR (server session, reference session): a history after which the server looks as
+    # before but the reference does not (a configure the server ignored) must still be extended
     proj = getattr(link.server, 'project', None)
-    return e2.fingerprint([proj, link.server_ended, len(link.inbox), len(link.outbox)], skip_attrs=('mtime',))
+    ref = getattr(getattr(link, 'reference', None), 'project', None)
+    return e2.fingerprint([proj, ref, link.server_ended, len(link.inbox), len(link.outbox)], skip_attrs=('mtime',))
 
 
 def unit_bfs(arg):
